@@ -45,6 +45,8 @@ class Interp:
         self.share_partial = False
         self.late_args = True                 # see st_call
         self.late_linked = 0
+        self.arg_links = []      # (hugr, source out port, node, input position) as the statements asked
+        self.static_links = []   # (hugr, function node, call node, expected static input offset)
         self._shared_ops: dict[str, object] = {}
 
     # ------------------------------------------------------------------ helpers
@@ -161,6 +163,10 @@ class Interp:
         for i, w in enumerate(late):
             b.hugr.add_link(w.out_port(), n.inp(len(ws) + i))
             self.late_linked += 1
+        # what the statement asked for, for oracles that must not read it back from the HUGR: argument i of the
+        # statement arrives at input i of the new node
+        for i, w in enumerate([*ws, *late]):
+            self.arg_links.append((b.hugr, w.out_port(), n.to_node(), i))
         self.nodes[st["id"]] = n
         self.handles.append((f"{via}:{st['op'][0]}", n, len(st["outs"])))
         for i, wid in enumerate(st["outs"]):
@@ -171,6 +177,8 @@ class Interp:
         ns = b.extend(*[self.make_op(st["op"])(*self.wires(st["args"])) for st in sts])
         assert len(ns) == len(sts), f"extend returned {len(ns)} nodes for {len(sts)} commands"
         for st, n in zip(sts, ns):
+            for i, w in enumerate(self.wires(st["args"])):
+                self.arg_links.append((b.hugr, w.out_port(), n.to_node(), i))
             self.nodes[st["id"]] = n
             self.handles.append((f"extend:{st['op'][0]}", n, len(st["outs"])))
             for k, wid in enumerate(st["outs"]):
@@ -222,6 +230,9 @@ class Interp:
         for i in range(k, len(ws)):
             b.hugr.add_link(ws[i].out_port(), n.inp(i))
             self.late_linked += 1
+        for i, w in enumerate(ws):
+            self.arg_links.append((b.hugr, w.out_port(), n.to_node(), i))
+        self.static_links.append((b.hugr, f.to_node(), n.to_node(), len(ws)))
         self.nodes[st["id"]] = n
         self.handles.append(("call", n, len(st["outs"])))
         for i, wid in enumerate(st["outs"]):
